@@ -129,3 +129,19 @@ pub proof fn lemma_ids_push(d: Seq<Entity>, k: int)
 pub broadcast axiom fn axiom_guard_resolved<'a, T: Component>(g: RemoveOnDrop<'a, T>)
     requires #[trigger] has_resolved(g),
     ensures has_resolved(g.0);
+
+// element-wise form of "n is o with id mapped to v" (used where the final value is only known through a returned borrow)
+pub open spec fn map_inserted<T: Component>(o: &MaskedStorage<T>, n: &MaskedStorage<T>, id: Index, v: T) -> bool {
+    &&& n.mask@ == o.mask@.insert(id)
+    &&& n.inner.val(id) == v
+    &&& forall|j: Index| #![trigger n.inner.val(j)] j != id ==> n.inner.val(j) == o.inner.val(j)
+}
+//@props C04
+pub proof fn lemma_map_inserted<T: Component>(o: &MaskedStorage<T>, n: &MaskedStorage<T>, id: Index, v: T)
+    requires map_inserted(o, n, id, v),
+    ensures n@ =~= o@.insert(id, v),
+{
+    assert forall|j: Index| n@.dom().contains(j) implies #[trigger] n@[j] == o@.insert(id, v)[j] by {
+        if j != id { assert(n.inner.val(j) == o.inner.val(j)); }
+    }
+}
